@@ -177,6 +177,11 @@ def run_bad_discovery(R, level, kind):
         msg_id = m["msg_id"]
         if kind == "wrong-msgid":
             msg_id += 1
+        elif kind.startswith("msgid="):
+            if int(kind[6:]) == msg_id:
+                msg_id += 1
+            else:
+                msg_id = int(kind[6:])
         elif kind == "no-bindings":
             pdu["varbinds"] = []
         out = {"msg_id": msg_id, "max_size": m["max_size"], "flags": m["flags"], "sec_model": 3, "usm": {k: v for k, v in m["usm"].items() if not k.startswith("_")},
@@ -231,7 +236,7 @@ def run(R):
         run_history(R, level, steps, ctx, rng.choice((0, 1, 7, 65535)))
     if R.shard == 0:
         for level in levels:
-            for kind in ("wrong-msgid", "no-bindings"):
+            for kind in ("wrong-msgid", "no-bindings", "msgid=0", "msgid=1", "msgid=-1", "msgid=2147483647", "msgid=2147483646", "msgid=-2147483648"):
                 run_bad_discovery(R, level, kind)
             # the named histories of the design
             run_history(R, level, [("op", "get"), ("advance", 151), ("op", "get")], b"", 1)
